@@ -1,5 +1,5 @@
 import McpModel.Base.Proto
-import McpModel.Order.Model
+import McpModel.Order.Monitor
 /-!
 Driver for the engine `order` (C03, end-to-end half).  One case = one scenario between a real
 `mcp.Client` and a real `mcp.Server` over one transport, under virtual time.
@@ -10,6 +10,18 @@ records (op ⇒ implementation's observation):
   `m <i> dir=<c2s|s2c> kind=<i|n|c|g|r> meth=<name> d=<ms> gap=<ms> cb=<0|1> [b=<body> rs=<ms>]`
         ⇒ `snd=<seq>@<ms> ret=<seq>@<ms> err=<0|1> beg=<seq>@<ms> fin=<seq>@<ms> n=<handler runs>`   (`-` = did not happen)
   `end`                                                ⇒ `extra=<handler runs without a known tag> t=<ms>`
+Fan-out cases (`cfg … np=<peers>`: ONE Client connected to `np` servers, dir=c2s, or ONE Server with `np`
+client sessions, dir=s2c) add
+  `to=<peer>` on every `m` record (the receiving peer; the pair of a message is (direction, peer)),
+  `of=<g>` on the per-session copies of the fan-out `g`, `lat=<ms>` (virtual latency a sending middleware
+        adds to this message's send path — a schedule, invisible to the model), and
+  `f <g> meth=<roots|resupd|tools|prompts|resources> mode=<sync|detached>`
+        ⇒ `call=<seq>@<ms> done=<seq>@<ms>`   the notifying method (AddRoots/RemoveRoots, ResourceUpdated; for
+        `detached`: AddTool/AddPrompt/AddResource, which only arm the debounce timer) begins / returns.
+For a `sync` fan-out the copies obey the fan-out discipline of `Order.fstep` (per-session sends one after
+the other, all of them over when the method returns) and the monitor counts every copy whose send did not
+fail as returned on its pair from `done` on.  The copies of a `detached` (debounced) fan-out are plain
+messages: the ordering clause applies to each from the instant its own per-session send has returned.
 
 `b` (raw streamable peer only): messages with the same `b` ≠ 0 travel in ONE POST body (a JSON-RPC batch), in
 record order; `snd` of all of them is logged before the POST, `ret` of all of them when the POST has been
@@ -58,12 +70,30 @@ structure Msg where
   fin : Option (Nat × Nat)
   n : Nat
   body : Nat := 0
+  /-- the receiving peer (fan-out cases; 0 otherwise) -/
+  to : Nat := 0
+  /-- the fan-out this message is a per-session copy of (0: none) -/
+  grp : Nat := 0
+  /-- where the sending call reported its error -/
+  errAt : Option (Nat × Nat) := none
+  /-- where the message entered the receiver's handler queue -/
+  enq : Option (Nat × Nat) := none
+
+/-- One notifying method that addresses several sessions. -/
+structure Fan where
+  g : Nat
+  meth : String
+  sync : Bool
+  call : Option (Nat × Nat)
+  done : Option (Nat × Nat)
 
 structure St where
   tr : String := ""
   dir : String := ""
   pv : String := ""
+  np : Nat := 1
   msgs : List Msg := []
+  fans : List Fan := []
 
 def Msg.kind (m : Msg) : Kind := classify m.toServer m.isCall m.meth
 
@@ -82,12 +112,31 @@ def parseMsg (toks : List String) (impl : String) : Option Msg := do
   let ret ← fld "ret"
   let beg ← fld "beg"
   let fin ← fld "fin"
+  let enq := (fld "enq").getD none
   let err ← kv o "err"
   let n ← (← kv o "n").toNat?
   if dir != "c2s" && dir != "s2c" then none
   let body := ((kv toks "b").bind (·.toNat?)).getD 0
+  let to := ((kv toks "to").bind (·.toNat?)).getD 0
+  let grp := ((kv toks "of").bind (·.toNat?)).getD 0
   pure { body := body, id := id, toServer := dir == "c2s", isCall := k != "n", meth := meth, kindTok := k,
-         snd := snd, ret := if err == "1" then none else ret, err := err == "1", beg := beg, fin := fin, n := n }
+         snd := snd, ret := if err == "1" then none else ret, err := err == "1", beg := beg, fin := fin, n := n,
+         to := to, grp := grp, errAt := if err == "1" then ret else none, enq := enq }
+
+def parseFan (toks : List String) (impl : String) : Option Fan := do
+  let g ← (← toks[0]?).toNat?
+  let meth ← kv toks "meth"
+  let mode ← kv toks "mode"
+  let o := words impl
+  let fld (name : String) : Option (Option (Nat × Nat)) :=
+    match kv o name with
+    | none => none
+    | some "-" => some none
+    | some v => (parseAt v).map some
+  let call ← fld "call"
+  let done ← fld "done"
+  if g == 0 || (mode != "sync" && mode != "detached") then none
+  pure { g := g, meth := meth, sync := mode == "sync", call := call, done := done }
 
 def showAt : Option (Nat × Nat) → String
   | none => "-"
@@ -103,43 +152,77 @@ def modelMsgObs (toks : List String) (impl : String) : String :=
   let _ := toks
   " ".intercalate o'
 
-/-- Per-record monitor: a message that was sent without error must have been handled, once. -/
+/-- The typed record of a message (what `Order.recClause` judges). -/
+def Msg.toRec (tr : String) (m : Msg) : Rec :=
+  { id := m.id, sent := m.snd.isSome, acked := !m.err && m.ret.isSome, began := m.beg.isSome, ended := m.fin.isSome,
+    runs := m.n, statelessNote := stateless tr && !m.isCall && m.toServer }
+
+def nameOf (msgs : List Msg) (k : Nat) : String :=
+  match msgs.find? fun m => m.id == k with
+  | some m => s!"{k} ({m.meth})"
+  | none => toString k
+
+/-- Per-record monitor: a message that was sent without error must have been handled, once (`Order.recClause`). -/
 def monitorMsg (st : St) (m : Msg) : Option String :=
-  if m.n > 1 then some s!"C03: the handler of message {m.id} ({m.meth}) ran {m.n} times"
-  else if m.beg.isSome ∧ m.snd.isNone then some s!"C03: message {m.id} ({m.meth}) was handled but never sent"
-  else if ¬ m.err ∧ m.ret.isSome ∧ (m.beg.isNone ∨ m.fin.isNone) then
-    if stateless st.tr ∧ ¬ m.isCall ∧ m.toServer then
-      some s!"C03: F14 notification acknowledged (202) on a stateless streamable server but never dispatched (message {m.id}, {m.meth})"
-    else some s!"C03: message {m.id} ({m.meth}) was sent without error but its handler never ran to completion"
-  else none
+  (recClause (m.toRec st.tr)).map fun
+    | .ranTwice _ n => s!"C03: the handler of message {m.id} ({m.meth}) ran {n} times"
+    | .neverSent _ => s!"C03: message {m.id} ({m.meth}) was handled but never sent"
+    | .f14NotDispatched _ => s!"C03: F14 notification acknowledged (202) on a stateless streamable server but never dispatched (message {m.id}, {m.meth})"
+    | .notHandled _ => s!"C03: message {m.id} ({m.meth}) was sent without error but its handler never ran to completion"
+    | _ => "C03: ?"
 
 /-- The messages that stand before `m` in the POST body that carries it (record order = body order). -/
 def bodyPreds (msgs : List Msg) (m : Msg) : List Nat :=
   if m.body == 0 then [] else
     ((msgs.takeWhile fun x => x.id != m.id).filter fun x => x.toServer == m.toServer && x.body == m.body).map (·.id)
 
-/-- The event sequence of one direction, in global log order. -/
-def eventsOf (msgs : List Msg) (toServer : Bool) : List (Nat × Ev) :=
+/-- The pair a message travels on: (receiving peer, direction). -/
+def Msg.pair (m : Msg) : Nat := 2 * m.to + (if m.toServer then 0 else 1)
+
+def sortEvs {α} (evs : List (Nat × α)) : List (Nat × α) := (evs.toArray.qsort fun a b => a.1 < b.1).toList
+
+/-- The event sequence of one pair, in global log order. -/
+def eventsOf (msgs : List Msg) (pair : Nat) : List (Nat × Ev) :=
   let evs := msgs.foldl (fun acc m =>
-    if m.toServer != toServer then acc else
+    if m.pair != pair then acc else
     let add (acc : List (Nat × Ev)) (o : Option (Nat × Nat)) (e : Ev) := match o with
       | some (q, _) => (q, e) :: acc
       | none => acc
     let ps := bodyPreds msgs m
     add (add (add (add acc m.snd (if ps.isEmpty then .snd m.id else .bsnd ps m.id)) m.ret (.ret m.id)) m.beg (.beg m.id)) m.fin (.fin m.id)) []
-  (evs.toArray.qsort fun a b => a.1 < b.1).toList
+  sortEvs evs
+
+/-- The case's global event log: the events of every message, the failed per-session sends of fan-out
+copies, and begin / return of every synchronous notifying method, in the order of the sequence numbers. -/
+def fanEvents (st : St) : List (Nat × FEv) :=
+  let add (acc : List (Nat × FEv)) (o : Option (Nat × Nat)) (e : FEv) := match o with
+    | some (q, _) => (q, e) :: acc
+    | none => acc
+  let syncG (g : Nat) : Bool := st.fans.any fun f => f.g == g && f.sync
+  let evs := st.msgs.foldl (fun acc m =>
+    let ps := bodyPreds st.msgs m
+    let acc := add (add (add (add acc m.snd (FEv.msg (if ps.isEmpty then .snd m.id else .bsnd ps m.id))) m.ret (.msg (.ret m.id))) m.beg (.msg (.beg m.id))) m.fin (.msg (.fin m.id))
+    let acc := add acc m.enq (.enq m.id)
+    if m.grp != 0 && syncG m.grp then add acc m.errAt (.ferr m.id) else acc) []
+  let evs := st.fans.foldl (fun acc f => if f.sync then add (add acc f.call (.fcall f.g)) f.done (.fret f.g) else acc) evs
+  sortEvs evs
 
 def kindFn (msgs : List Msg) : Nat → Kind := fun i =>
   match msgs.find? fun m => m.id == i with
   | some m => m.kind
   | none => .call
 
-def Ev.label : Ev → Label
-  | .snd i => .send i
-  | .bsnd ps i => .bsend ps i
-  | .ret i => .ret i
-  | .beg i => .start i
-  | .fin i => .fin i
+/-- Addressing of the case: pair of a message, its synchronous fan-out (if any), the copies of a fan-out. -/
+def topoOf (st : St) : Topo where
+  pair i := match st.msgs.find? fun m => m.id == i with
+    | some m => m.pair
+    | none => 0
+  grp i := match st.msgs.find? fun m => m.id == i with
+    | some m => if m.grp != 0 && (st.fans.any fun f => f.g == m.grp && f.sync) then some m.grp else none
+    | none => none
+  copies g := if st.fans.any fun f => f.g == g && f.sync then (st.msgs.filter fun m => m.grp == g).map (·.id) else []
+
+def cfgOf (st : St) : Cfg := let t := topoOf st; { kind := kindFn st.msgs, pair := t.pair, copies := t.copies, grp := t.grp }
 
 /-- Eager invisible steps: release an asynchronous call, hand the head of the queue to the dispatcher. -/
 def settle (kind : Nat → Kind) (s : State) : Nat → State
@@ -156,6 +239,13 @@ def settle (kind : Nat → Kind) (s : State) : Nat → State
       | none => s
     | none, [] => s
 
+/-- The model has ONE FIFO between `write` and `disp`; the implementation reports the order in which the messages
+of a pair entered the last of its queues (`enq`, `order`).  The search places the `write` labels in that order: a
+message that was seen entering the queue may be written only when everything that entered before it has been. -/
+def mayWrite (order : List Nat) (s : State) (k : Nat) : Bool :=
+  !order.contains k ||
+    (order.find? fun x => s.phase x == .unsent || s.phase x == .sending) == some k
+
 /-- Result of a search: events matched on the best attempt, success, step budget left. -/
 structure SR where
   pos : Nat
@@ -168,45 +258,45 @@ next event is not enabled, and then any sending message may be written (backtrac
 `write` to the right past an event that is enabled without it preserves being a run (no visible label is
 disabled by a message still being outside the queue, `disp`/`rel` are taken eagerly anyway, and the order
 among the writes is kept), so this finds a run whenever there is one. -/
-partial def searchLazy (kind : Nat → Kind) (ids : List Nat) (s : State) (evs : List (Nat × Ev)) (pos fuel : Nat) : SR :=
+partial def searchLazy (kind : Nat → Kind) (order : List Nat) (ids : List Nat) (s : State) (evs : List (Nat × Ev)) (pos fuel : Nat) : SR :=
   let s := settle kind s (2 * ids.length + 2)
   match evs with
   | [] => ⟨pos, true, fuel⟩
   | (_, e) :: rest =>
     match step kind s e.label with
-    | some s' => searchLazy kind ids s' rest (pos + 1) fuel
+    | some s' => searchLazy kind order ids s' rest (pos + 1) fuel
     | none =>
-      (ids.filter fun k => s.phase k == .sending).foldl (fun (best : SR) k =>
+      (ids.filter fun k => s.phase k == .sending && mayWrite order s k).foldl (fun (best : SR) k =>
         if best.ok || best.fuel == 0 then best else
           match step kind s (.write k) with
           | some s' =>
-            let r := searchLazy kind ids s' evs pos (best.fuel - 1)
+            let r := searchLazy kind order ids s' evs pos (best.fuel - 1)
             if r.ok || r.pos > best.pos then r else { best with fuel := r.fuel }
           | none => best) ⟨pos, false, fuel⟩
 
 /-- Exhaustive variant (any sending message may be written before any event), bounded by the step budget. -/
-partial def searchAll (kind : Nat → Kind) (ids : List Nat) (s : State) (evs : List (Nat × Ev)) (pos fuel : Nat) : SR :=
+partial def searchAll (kind : Nat → Kind) (order : List Nat) (ids : List Nat) (s : State) (evs : List (Nat × Ev)) (pos fuel : Nat) : SR :=
   let s := settle kind s (2 * ids.length + 2)
   match evs with
   | [] => ⟨pos, true, fuel⟩
   | (_, e) :: rest =>
     if fuel == 0 then ⟨pos, false, 0⟩ else
     let direct : SR := match step kind s e.label with
-      | some s' => searchAll kind ids s' rest (pos + 1) (fuel - 1)
+      | some s' => searchAll kind order ids s' rest (pos + 1) (fuel - 1)
       | none => ⟨pos, false, fuel - 1⟩
     if direct.ok then direct else
-      (ids.filter fun k => s.phase k == .sending).foldl (fun (best : SR) k =>
+      (ids.filter fun k => s.phase k == .sending && mayWrite order s k).foldl (fun (best : SR) k =>
         if best.ok || best.fuel == 0 then best else
           match step kind s (.write k) with
           | some s' =>
-            let r := searchAll kind ids s' evs pos (best.fuel - 1)
+            let r := searchAll kind order ids s' evs pos (best.fuel - 1)
             if r.ok || r.pos > best.pos then r else { best with fuel := r.fuel }
           | none => best) direct
 
-def search (kind : Nat → Kind) (ids : List Nat) (s : State) (evs : List (Nat × Ev)) (pos : Nat) : Nat × Bool :=
-  let r := searchLazy kind ids s evs pos 20000
+def search (kind : Nat → Kind) (order : List Nat) (ids : List Nat) (s : State) (evs : List (Nat × Ev)) (pos : Nat) : Nat × Bool :=
+  let r := searchLazy kind order ids s evs pos 20000
   if r.ok then (r.pos, true) else
-    let r2 := searchAll kind ids s evs pos 20000
+    let r2 := searchAll kind order ids s evs pos 20000
     if r2.ok then (r2.pos, true) else (max r.pos r2.pos, false)
 
 /-- Ephemeral sessions: no invisible labels, the event sequence itself must be a run of `stepE`. -/
@@ -219,39 +309,67 @@ def searchE (s : State) (evs : List (Nat × Ev)) (pos : Nat) : Nat × Bool :=
     | none => (pos, false)
 
 /-- `none` = accepted; `some q` = the event with global sequence number `q` is where every attempt got stuck. -/
-def acceptDir (ephemeral : Bool) (msgs : List Msg) (toServer : Bool) : Option Nat :=
-  let evs := eventsOf msgs toServer
-  let ids := (msgs.filter fun m => m.toServer == toServer).map (·.id)
-  let r := if ephemeral then searchE init evs 0 else search (kindFn msgs) ids init evs 0
+def acceptPair (ephemeral : Bool) (msgs : List Msg) (pair : Nat) : Option Nat :=
+  let evs := eventsOf msgs pair
+  let ids := (msgs.filter fun m => m.pair == pair).map (·.id)
+  let order := (sortEvs ((msgs.filter fun m => m.pair == pair).filterMap fun m => m.enq.map fun q => (q.1, m.id))).map (·.2)
+  let r := if ephemeral then searchE init evs 0 else search (kindFn msgs) order ids init evs 0
   if r.2 then none else
     match evs[r.1]? with
     | some (q, _) => some q
     | none => some 0
 
-/-- The ordering clause of C03 on one direction's events, with the proved monitor `Order.monitor`. -/
-def orderClause (st : St) (toServer : Bool) : Option String :=
-  let evs := (eventsOf st.msgs toServer).map (·.2)
-  match (monitor (kindFn st.msgs) evs).bad with
-  | none => none
-  | some (i, j) =>
-    let name (k : Nat) := match st.msgs.find? fun m => m.id == k with
-      | some m => s!"{k} ({m.meth})"
-      | none => toString k
-    let isNote := match st.msgs.find? fun m => m.id == i with
-      | some m => !m.isCall
-      | none => false
-    let pre := if stateless st.tr && isNote && toServer then "C03: F14 stateless streamable server: " else "C03: "
-    let dir := if toServer then "client→server" else "server→client"
-    let sameBody := match st.msgs.find? fun m => m.id == j with
-      | some m => (bodyPreds st.msgs m).contains i
-      | none => false
-    if sameBody then
-      some s!"{pre}{dir}: the handler of message {name j} started before the handler of message {name i} had finished, although {i} stands before {j} in the POST body (JSON-RPC batch) that carried both: messages of one peer must be dispatched in the order they were sent"
-    else
-    let acked := match st.msgs.find? fun m => m.id == i with
-      | some m => if m.body != 0 then s!" (the POST that carried {i} had been answered: an acknowledgement may be given only after the messages are queued)" else ""
-      | none => ""
-    some s!"{pre}{dir}: the handler of message {name j} started before the handler of message {name i} had finished, although the call that sent {i} had returned before {j} was sent{acked}"
+/-- Every pair's events must be the visible part of a run of the pair model, and the global log must obey
+the fan-out discipline (`Order.fanDiscipline`: a run of `Order.fstep` whose pairs accept everything). -/
+def rejected (st : St) : String :=
+  let pairs := (st.msgs.map (·.pair)).eraseDups
+  let bad := pairs.findSome? fun p =>
+    (acceptPair (stateless st.tr && p % 2 == 0) st.msgs p).map fun q =>
+      let d := if p % 2 == 0 then "c2s" else "s2c"
+      if st.np > 1 then s!" rejected={d}/{p / 2}@{q}" else s!" rejected={d}@{q}"
+  match bad with
+  | some r => r
+  | none => if fanDiscipline (topoOf st) ((fanEvents st).map (·.2)) then "" else " rejected=fanout"
+
+/-- The ordering clause of C03 on the case's event log, with the typed monitor `Order.orderClause`
+(`Order.fan_monitor_accepts_runs`, `Order.sound_*`). -/
+def orderJudge (st : St) : Option Clause :=
+  if st.np > 1 then orderClause (cfgOf st) ((fanEvents st).map (·.2))
+  else
+    -- one client, one server: each direction is a pair of its own (no notifying method couples them), judged
+    -- on its own events with the single-pair configuration (`Order.pair_monitor_accepts_runs`,
+    -- `Order.pair_monitor_accepts_ephemeral_runs`)
+    let cfg : Cfg := { kind := kindFn st.msgs, pair := fun _ => 0, copies := fun _ => [], grp := fun _ => none }
+    [0, 1].findSome? fun p => orderClause cfg (((fanEvents { st with msgs := st.msgs.filter fun m => m.pair == p }).map (·.2)))
+
+def orderText (st : St) : Option String :=
+  (orderJudge st).map fun cl =>
+    let find (k : Nat) := st.msgs.find? fun m => m.id == k
+    let name := nameOf st.msgs
+    let render (i j : Nat) (tail : String) (f14 : Bool := true) : String :=
+      let toServer := match find i with | some m => m.toServer | none => true
+      let isNote := match find i with | some m => !m.isCall | none => false
+      let pre := if f14 && stateless st.tr && isNote && toServer then "C03: F14 stateless streamable server: " else "C03: "
+      let dir := if toServer then "client→server" else "server→client"
+      let peer := if st.np > 1 then match find i with | some m => s!" (peer {m.to})" | none => "" else ""
+      s!"{pre}{dir}{peer}: the handler of message {name j} started before the handler of message {name i} had finished, {tail}"
+    match cl with
+    | .sameBody i j =>
+      render i j s!"although {i} stands before {j} in the POST body (JSON-RPC batch) that carried both: messages of one peer must be dispatched in the order they were sent"
+    | .bodyDispatch i j =>
+      let toServer := match find i with | some m => m.toServer | none => true
+      let dir := if toServer then "client→server" else "server→client"
+      let peer := if st.np > 1 then match find i with | some m => s!" (peer {m.to})" | none => "" else ""
+      s!"C03: {dir}{peer}: message {name j} entered the handler queue of the receiving connection before message {name i} did, although {i} stands before {j} in the POST body (JSON-RPC batch) that carried both: messages of one peer are dispatched to handlers in the order they were sent, whatever their kinds"
+    | .laterSend i j =>
+      let acked := match find i with
+        | some m => if m.body != 0 then s!" (the POST that carried {i} had been answered: an acknowledgement may be given only after the messages are queued)" else ""
+        | none => ""
+      render i j s!"although the call that sent {i} had returned before {j} was sent{acked}"
+    | .fanout g i j =>
+      let meth := match st.fans.find? fun f => f.g == g with | some f => f.meth | none => "?"
+      render i j s!"although {i} is this peer's copy of a notification sent to several sessions by one notifying method (fan-out {g}, {meth}) and that method had returned before {j} was sent: a notifying method that addresses several sessions has sent to every one of them when it returns" false
+    | _ => "C03: ?"
 
 def engine : Engine St where
   init := {}
@@ -260,8 +378,13 @@ def engine : Engine St where
     | ["reset"] => ({}, { model := "ok" })
     | "cfg" :: rest =>
       match kv rest "tr", kv rest "dir", kv rest "pv" with
-      | some tr, some dir, some pv => ({ tr := tr, dir := dir, pv := pv, msgs := [] }, { model := "ok" })
+      | some tr, some dir, some pv =>
+        ({ tr := tr, dir := dir, pv := pv, np := ((kv rest "np").bind (·.toNat?)).getD 1, msgs := [] }, { model := "ok" })
       | _, _, _ => (st, { model := "bad-op" })
+    | "f" :: rest =>
+      match parseFan rest impl with
+      | none => (st, { model := "bad-record" })
+      | some f => ({ st with fans := st.fans ++ [f] }, { model := impl })
     | "m" :: rest =>
       match parseMsg rest impl with
       | none => (st, { model := "bad-record" })
@@ -270,12 +393,7 @@ def engine : Engine St where
     | ["end"] =>
       let o := words impl
       let t := (kv o "t").getD "?"
-      let rej := match acceptDir (stateless st.tr) st.msgs true, acceptDir false st.msgs false with
-        | some q, _ => s!" rejected=c2s@{q}"
-        | none, some q => s!" rejected=s2c@{q}"
-        | none, none => ""
-      let v := orderClause st true <|> orderClause st false
-      (st, { model := s!"extra=0 t={t}{rej}", violated := v })
+      (st, { model := s!"extra=0 t={t}{rejected st}", violated := orderText st })
     | _ => (st, { model := "bad-op" })
 
 end Order
